@@ -74,7 +74,7 @@ def _normalize_case(draw, tier):
     return c
 
 
-@cell("C08/normalize", strategy=_normalize_case, quick=1400, thorough=24000, shards=(2, 12))
+@cell("C08/normalize", strategy=_normalize_case, quick=1400, thorough=12000, shards=(2, 12))
 def normalize(ctx, case):
     K = gen.build_ktensor(case)
     F0, w0 = H.fms_of(case), H.w_of(case)
@@ -155,7 +155,7 @@ def _perm_arg(p, form):
     return list(p) if form == "list" else (tuple(p) if form == "tuple" else np.array(p, dtype=int))
 
 
-@cell("C08/arrange", strategy=_arrange_case, quick=1200, thorough=20000, shards=(2, 12))
+@cell("C08/arrange", strategy=_arrange_case, quick=1200, thorough=14000, shards=(2, 12))
 def arrange(ctx, case):
     K = gen.build_ktensor(case)
     F0, w0 = H.fms_of(case), H.w_of(case)
@@ -233,7 +233,7 @@ def _fixsigns_alone_case(draw, tier):
     return c
 
 
-@cell("C08/fixsigns/alone", strategy=_fixsigns_alone_case, quick=1200, thorough=20000, shards=(2, 12))
+@cell("C08/fixsigns/alone", strategy=_fixsigns_alone_case, quick=1200, thorough=14000, shards=(2, 12))
 def fixsigns_alone(ctx, case):
     K = gen.build_ktensor(case)
     F0, w0 = H.fms_of(case), H.w_of(case)
@@ -320,7 +320,7 @@ def _odd_negative_correlations(case):
     return H.odd_or_ambiguous(S, Z)
 
 
-@cell("C08/fixsigns/reference", strategy=_fixsigns_ref_case, quick=1600, thorough=24000, shards=(2, 12))
+@cell("C08/fixsigns/reference", strategy=_fixsigns_ref_case, quick=1600, thorough=12000, shards=(2, 12))
 def fixsigns_reference(ctx, case):
     K = gen.build_ktensor(case)
     oc = _other(case)
@@ -370,7 +370,7 @@ def _redistribute_case(draw, tier):
     return c
 
 
-@cell("C08/redistribute", strategy=_redistribute_case, quick=800, thorough=12000, shards=(1, 8))
+@cell("C08/redistribute", strategy=_redistribute_case, quick=800, thorough=8000, shards=(1, 8))
 def redistribute(ctx, case):
     K = gen.build_ktensor(case)
     F0, w0 = H.fms_of(case), H.w_of(case)
@@ -408,7 +408,7 @@ def _extract_case(draw, tier):
     return c
 
 
-@cell("C08/extract", strategy=_extract_case, quick=800, thorough=12000, shards=(1, 8))
+@cell("C08/extract", strategy=_extract_case, quick=800, thorough=8000, shards=(1, 8))
 def extract(ctx, case):
     K = gen.build_ktensor(case)
     F0, w0 = H.fms_of(case), H.w_of(case)
@@ -444,7 +444,7 @@ def _vector_case(draw, tier):
     return c
 
 
-@cell("C08/vector-roundtrip", strategy=_vector_case, quick=800, thorough=12000, shards=(1, 8))
+@cell("C08/vector-roundtrip", strategy=_vector_case, quick=800, thorough=8000, shards=(1, 8))
 def vector_roundtrip(ctx, case):
     K = gen.build_ktensor(case)
     F0, w0 = H.fms_of(case), H.w_of(case)
@@ -484,7 +484,7 @@ def _tolist_case(draw, tier):
     return c
 
 
-@cell("C08/list-roundtrip", strategy=_tolist_case, quick=800, thorough=12000, shards=(1, 8))
+@cell("C08/list-roundtrip", strategy=_tolist_case, quick=800, thorough=8000, shards=(1, 8))
 def list_roundtrip(ctx, case):
     K = gen.build_ktensor(case)
     F0, w0 = H.fms_of(case), H.w_of(case)
@@ -552,7 +552,7 @@ def _update_case(draw, tier):
     return c
 
 
-@cell("C08/update", strategy=_update_case, quick=800, thorough=12000, shards=(1, 8))
+@cell("C08/update", strategy=_update_case, quick=800, thorough=8000, shards=(1, 8))
 def update(ctx, case):
     K = gen.build_ktensor(case)
     F0, w0 = H.fms_of(case), H.w_of(case)
@@ -603,7 +603,7 @@ def _algebra_case(draw, tier):
     return c
 
 
-@cell("C08/algebra", strategy=_algebra_case, quick=1400, thorough=20000, shards=(2, 12))
+@cell("C08/algebra", strategy=_algebra_case, quick=1400, thorough=14000, shards=(2, 12))
 def algebra(ctx, case):
     K = gen.build_ktensor(case)
     F0, w0 = H.fms_of(case), H.w_of(case)
@@ -698,7 +698,7 @@ def _has_dead_component(case):
     return any((G[:, r] == 0).all() for G in F for r in range(case["rank"]))
 
 
-@cell("C08/score", strategy=_score_case, quick=1000, thorough=16000, shards=(2, 12))
+@cell("C08/score", strategy=_score_case, quick=1000, thorough=12000, shards=(2, 12))
 def score(ctx, case):
     K = gen.build_ktensor(case)
     oc = dict(shape=case["shape"], rank=case["other"]["rank"], weights=case["other"]["weights"],
